@@ -96,6 +96,9 @@ class FPV:
         try:
             return FPV(self.value / o.value, self.sort)
         except ZeroDivisionError:
+            if self.value == 0.0 or self.value != self.value:
+                # 0/0 and NaN/0 are NaN
+                return FPV(float("nan"), self.sort)
             if str(self.value * o.value)[0] == "-":
                 return FPV(float("-inf"), self.sort)
             return FPV(float("inf"), self.sort)
@@ -133,6 +136,8 @@ class FPV:
         try:
             return FPV(o.value / self.value, self.sort)
         except ZeroDivisionError:
+            if o.value == 0.0 or o.value != o.value:
+                return FPV(float("nan"), self.sort)
             if str(o.value * self.value)[0] == "-":
                 return FPV(float("-inf"), self.sort)
             return FPV(float("inf"), self.sort)
